@@ -54,7 +54,12 @@ def gen_case(rng):
         if rng.random() < 0.12:
             lines.append([])
         else:
-            lines.append([rng.choice(WORDS) if rng.random() < 0.8 else R for _ in range(rng.randint(1, 4))])
+            ws = [rng.choice(WORDS) if rng.random() < 0.8 else R for _ in range(rng.randint(1, 4))]
+            # blanks at the end of a line belong to the line ("the entire line"); kept away from -L, where a trailing blank
+            # continues the logical line (C04's subject)
+            if "L" not in optkinds and rng.random() < 0.3:
+                ws[-1] = ws[-1] + rng.choice([b" ", b"\t", b"  ", b" \t"])
+            lines.append(ws)
     final_nl = rng.random() < 0.8
     init = []
     for _ in range(rng.randint(0, 4)):
@@ -77,6 +82,7 @@ def tokens(c, repl):
     toks = []
     for li, ws in enumerate(c["lines"]):
         for k, w in enumerate(ws):
+            w = w.rstrip(b" \t")
             last_line = li == len(c["lines"]) - 1
             hard = k == len(ws) - 1 and (not last_line or c["final_nl"])
             toks.append((w, "h" if hard else "s"))
